@@ -45,7 +45,7 @@ def run_net(binary, args, timeout=240, env=None):
 
 def extra_checks(tier, rng, binaries, log):
     res = []
-    runs = [("net_driver_pool", 4, 8, 40)] if tier == "quick" else [("net_driver_pool", 8, 32, 100), ("net_driver_pool", 16, 64, 50),
+    runs = [("net_driver_pool", 4, 8, 40), ("net_driver_tsan", 4, 24, 6)] if tier == "quick" else [("net_driver_pool", 8, 32, 100), ("net_driver_pool", 16, 64, 50),
                                                                      ("net_driver_tsan", 4, 16, 40), ("net_driver_tsan", 8, 32, 30)]
     samples = []
     n = 0
@@ -55,7 +55,8 @@ def extra_checks(tier, rng, binaries, log):
         except vlib.BuildError as e:
             res.append((False, "net_driver (%s) does not build: %s" % (h, str(e)[-300:]), "build", {}))
             continue
-        kv, err = run_net(binary, ["pool", "threads=%d" % threads, "conns=%d" % conns, "reqs=%d" % reqs])
+        kv, err = run_net(binary, ["pool", "threads=%d" % threads, "conns=%d" % conns, "reqs=%d" % reqs] +
+                          (["rounds=8"] if h.endswith("tsan") else []))
         n += 1
         cmdline = "net_driver(%s) pool threads=%d conns=%d reqs=%d" % (h, threads, conns, reqs)
         if kv is None:
